@@ -1779,6 +1779,68 @@ fn gen_random_hist(rng: &mut Rng, samples: usize, emit: &mut dyn FnMut(String)) 
     }
 }
 
+
+/// A refiller script: start, then a few of {close a pooled connection, restart with other parameters (also: without
+/// shards), change the parameters for later connections, pin the shards of the next connections (several on one shard:
+/// excess connections), shift the shard-aware port (a NAT)}, each followed by a look.
+fn gen_refill(rng: &mut Rng) -> String {
+    let size = match rng.below(8) {
+        0 => "S2".to_owned(),
+        1 | 2 => format!("H{}", rng.range(1, 4)),
+        _ => "S1".to_owned(),
+    };
+    let port = if rng.chance(3, 4) { "p" } else { "n" };
+    let params = |rng: &mut Rng| -> (u16, String) {
+        if rng.chance(1, 7) {
+            (0, "0.0".to_owned())
+        } else {
+            let nr = rng.range(1, 6) as u16;
+            (nr, format!("{}.{}", nr, *rng.pick(&[0u8, 1, 12, 12])))
+        }
+    };
+    let (mut nr, p) = params(rng);
+    let mut steps: Vec<String> = vec![format!("N{}", p)];
+    if nr > 1 && rng.chance(1, 3) {
+        steps.push(format!("M{}", rng.range(1, nr as i64 - 1).max(1)));
+    }
+    if nr > 0 && rng.chance(1, 3) {
+        let s = rng.below(nr as u64);
+        steps.push(format!("A{}", (0..rng.range(2, 4)).map(|_| if rng.chance(2, 3) { s } else { rng.below(nr as u64) }.to_string()).collect::<Vec<_>>().join(",")));
+    }
+    steps.push("W".into());
+    for _ in 0..rng.range(1, 3) {
+        match rng.below(7) {
+            0 | 1 | 2 => {
+                let s = if nr == 0 { 0 } else if rng.chance(1, 8) { nr as u64 } else { rng.below(nr as u64) };
+                steps.push(format!("C{}", s));
+                if rng.chance(1, 3) && nr > 0 {
+                    steps.push(format!("C{}", rng.below(nr as u64)));
+                }
+            }
+            3 | 4 => {
+                let (n2, p2) = params(rng);
+                nr = n2;
+                steps.push(format!("N{}", p2));
+            }
+            5 => {
+                let (n2, p2) = params(rng);
+                steps.push(format!("P{}", p2));
+                steps.push(format!("C{}", if nr == 0 { 0 } else { rng.below(nr as u64) }));
+                nr = n2;
+            }
+            _ => {
+                if nr > 0 {
+                    let s = rng.below(nr as u64);
+                    steps.push(format!("A{},{}", s, s));
+                    steps.push(format!("C{}", s));
+                }
+            }
+        }
+        steps.push("W".into());
+    }
+    format!("refill {} {} {}", size, port, steps.join(";"))
+}
+
 fn tagged(line: String) -> String {
     let w: Vec<&str> = line.split(' ').collect();
     if w.len() == 8 && w[0] == "hist" {
@@ -1852,6 +1914,20 @@ pub fn generate(rng: &mut Rng, tier: Tier, emit0: &mut dyn FnMut(String)) {
     };
     let mut pool_lines: Vec<String> = Vec::new();
     let collect: &mut dyn FnMut(String) = &mut |l: String| pool_lines.push(l);
+    for _ in 0..if quick { 28 } else { 260 } {
+        let l = gen_refill(rng);
+        collect(l);
+    }
+    for l in [
+        "refill S1 p N3.12;W;C1;W",
+        "refill S1 p N4.12;M1;W;C2;W",
+        "refill S1 n N3.12;A1,1,1,0;W;C1;W",
+        "refill S1 p N3.12;W;N5.0;W;N0.0;W;N2.12;W",
+        "refill S1 p N3.12;W;P2.1;C0;W",
+        "refill H3 p N4.0;W;C0;W",
+    ] {
+        collect(l.to_owned());
+    }
     let rounds = if quick { 1 } else { 6 };
     for round in 0..rounds {
         // the server reports the NEXT shard for shard-aware-port connections (NAT emulation): connections must be filed
@@ -2007,6 +2083,12 @@ pub fn generate(rng: &mut Rng, tier: Tier, emit0: &mut dyn FnMut(String)) {
         "hist 1:0:0:5:s2m1 S1 R1:0:0:5:s3m1 a/t/f/s 5/0/0/one/-/a 0 3",
         "hist 1:0:0:5 S1 R1:0:0:5;1:0:0:6 a/t/f/s 5/0/0/one/-/a 0 3",
         "hist 1:0:0:5 S1 T0.0@1_5_1.0@6_9_1.0 a/t/f/s 5/0/0/one/-/a 0 3",
+        "refill S1 p W",
+        "refill S1 p N3.12;C1",
+        "refill S5 p N3.12;W",
+        "refill S1 q N3.12;W",
+        "refill S1 p N3.64;W",
+        "refill S1 p N3.12;X;W",
         "pool 0 12 S1 p 0",
         "pool 4 64 S1 p 0",
         "pool 4 12 S0 p 0",
